@@ -636,6 +636,72 @@ def _pre_scope_children(f, kind):
     return pre, bool(entries)
 
 
+def r6b(db, rep):
+    from facts import provenance
+    rep.rule("R6b", "the contains_direct_eval flag computed by an AST node's constructor examines each part on its own: an "
+                    "expression-bearing parameter of `X::new` that reaches a contains(.., DirectEval) call is the sole subject "
+                    "of one (a parameter merged with another through Option::or / and / zip is examined only when the other is "
+                    "absent)")
+    adts, ex, mentions = _expression_bearing(db)
+    n = 0
+    for k, a in adts.items():
+        fields = [fl["n"] for v in a["variants"] for fl in v["fields"]]
+        if "contains_direct_eval" not in fields or a["kind"] != "struct":
+            continue
+        short = k.split("::")[-1]
+        fs = [f for f in db.fns.values() if f.krate == "boa_ast" and f.name == "new" and (f.rec.get("self") or "").endswith(k)
+              and "{closure" not in f.id]
+        if not fs:
+            continue
+        f = fs[0]
+        params = [i for i in range(1, f.rec["argc"] + 1) if mentions(f.locals[i], ex)]
+        if not params:
+            continue
+        sole = set()
+        merged = set()
+        subjects = []
+        for b, t in f.calls():
+            if (callee(t) or "").endswith("operations::contains") and t["args"]:
+                subjects.append(op_local(t["args"][0]))
+                continue
+            # `opt.is_some_and(|e| contains(e, DirectEval))` and the like: the subject is the receiver
+            for a_ in t["args"][1:]:
+                al = op_local(a_)
+                for r in (roots(f, al) if al is not None else []):
+                    if r[0] == "rv" and r[2].get("k") == "agg" and r[2].get("ak") == "closure":
+                        g = db.fns.get(r[2]["def"])
+                        if g is not None and any((callee(tt) or "").endswith("operations::contains") for _, tt in g.calls()):
+                            subjects.append(op_local(t["args"][0]))
+        for l in subjects:
+            if l is None:
+                continue
+            prov = provenance(f, l, limit=200, extra=("as_ref", "as_deref", "deref", "unwrap", "expect", "iter", "as_slice",
+                                                       "or", "and", "xor", "zip", "or_else", "chain", "unwrap_or", "clone"))
+            # provenance follows only the first argument of calls: look at every argument of the combinators it met
+            srcs = {p_ for p_ in params if p_ in prov}
+            for q in list(prov):
+                for bb, i, rr in f.defs().get(q, []):
+                    if i == "t" and cn(rr).split("::")[-1] in ("or", "and", "xor", "zip", "or_else", "chain", "unwrap_or"):
+                        for a_ in rr["args"]:
+                            al = op_local(a_)
+                            if al is not None:
+                                srcs |= {p_ for p_ in params if p_ in provenance(f, al, limit=200, extra=("as_ref", "as_deref", "deref", "clone"))}
+            if len(srcs) == 1:
+                sole |= srcs
+            elif len(srcs) > 1:
+                merged |= srcs
+        for p_ in params:
+            if p_ not in merged and p_ not in sole:
+                continue          # not examined at all: outside the scope the flag governs (switch discriminant, method name)
+            n += 1
+            rep.ob("R6b", f"{short}::new:{f.var_name(p_) or p_}:examined-for-direct-eval", p_ in sole,
+                   f"{short}::new computes contains_direct_eval without a contains(.., DirectEval) call that examines its parameter "
+                   f"`{f.var_name(p_) or p_}` by itself: a direct eval that occurs only there (`for (let i = 0; i < 3; eval(\"i++\"))`) "
+                   f"leaves the flag false, the loop's bindings stay in registers and the eval writes another variable",
+                   loc=f.span)
+    rep.floor("R6b", "expression-bearing constructor parameters examined for direct eval", n, 20)
+
+
 def r7(db, rep):
     rep.rule("R7", "the three scope passes agree on which children of a scope-bearing statement lie outside its scope: for "
                    "block / catch / switch / with, the node fields visited before the node's scope is "
@@ -717,6 +783,82 @@ def _touched_fields(f):
                 if l is not None:
                     whole.add(f.locals[l].replace("&'ast mut ", "").replace("&mut ", "").replace("&", "").strip())
     return out, whole
+
+
+LOOP_NODES = ["visit_for_loop_mut", "visit_for_in_loop_mut", "visit_for_of_loop_mut"]
+
+
+def _visit_depths(f, kind):
+    """{child field: max number of scopes of this node that are open when the child is visited}, from the events of the
+    method in reverse-post-order: collector / escape analyzer toggle with mem::swap(self.scope, ..), the index visitor
+    opens with Scope::set_index and closes by assigning a saved value (not an addition) back to self.index"""
+    order = f._rpo()
+    pos = {b: i for i, b in enumerate(order)}
+    ev = []
+    for b, t in f.calls():
+        c = cn(t)
+        if kind in ("collector", "escape") and c.endswith("mem::swap"):
+            ev.append((pos.get(b, 0), 1, "T", None))
+        if kind == "index" and c.endswith("Scope::set_index"):
+            ev.append((pos.get(b, 0), 1, "E", None))
+        m = (callee(t) or "").split("::")[-1]
+        if m.startswith("visit_") and len(t["args"]) >= 2:
+            l = op_local(t["args"][1])
+            fl = set()
+            for r in (roots(f, l) if l is not None else []):
+                if r[0] == "place":
+                    fl |= {x.split(".")[-1] for x in place_fields(r[1]) if not x.split(".")[-1].isdigit()}
+            for x in fl:
+                ev.append((pos.get(b, 0), 2, "V", x))
+    if kind == "index":
+        for b in f.reachable():
+            for i, st in enumerate(f.blocks[b]["s"]):
+                if any(x.endswith("ScopeIndexVisitor.index") for x in place_fields(st["p"])) and st["r"].get("k") == "use" \
+                        and st["r"]["o"][0] in ("c", "m"):
+                    vl = st["r"]["o"][1][0]
+                    arith = any(r[0] == "rv" and r[2].get("k") in ("bin", "checked") for r in roots(f, vl))
+                    if not arith and len(st["r"]["o"][1]) == 1:
+                        ev.append((pos.get(b, 0), 0, "X", None))      # restore of a saved index (not `index += 1`)
+    ev.sort(key=lambda e: (e[0], e[1]))
+    depth, opened, out = 0, 0, {}
+    for _, _, k, x in ev:
+        if k == "T":
+            opened += 1
+            depth = depth + 1 if opened % 2 == 1 else max(depth - 1, 0)
+        elif k == "E":
+            depth += 1
+        elif k == "X":
+            depth = max(depth - 1, 0)
+        elif k == "V":
+            out[x] = max(out.get(x, 0), depth)
+    return out
+
+
+def r7b(db, rep):
+    rep.rule("R7b", "for the loop statements (several sequential scopes: the TDZ scope of the head, then the loop scope) the index "
+                    "visitor opens and closes its scopes around the same children as the collector: for every child, the "
+                    "number of the node's scopes open at its visit is the same in BindingCollectorVisitor and "
+                    "ScopeIndexVisitor (a head scope that is not closed numbers everything after it one too deep)")
+    n = 0
+    for m in LOOP_NODES:
+        d = {}
+        for f in db.fns.values():
+            if f.krate != "boa_ast" or "{closure" in f.id or f.name != m:
+                continue
+            for k, v in SCOPE_VISITORS.items():
+                if v in f.id:
+                    d[k] = f
+        if not rep.anchor("R7b", f"{m} overridden by collector and index visitor", "collector" in d and "index" in d):
+            continue
+        dc, di = _visit_depths(d["collector"], "collector"), _visit_depths(d["index"], "index")
+        for child in sorted(set(dc) & set(di)):
+            n += 1
+            rep.ob("R7b", f"{m}:{child}:open-scopes-agree", dc[child] == di[child],
+                   f"ScopeIndexVisitor::{m} visits `{child}` with {di[child]} of the statement's scopes open, "
+                   f"BindingCollectorVisitor with {dc[child]}: the scope indices (static environment depths of the locators) of "
+                   f"everything inside `{child}` are off — `for (let x of [(p = () => x, 1)]) {{ f = () => x }}` writes past the "
+                   f"environment chain", loc=d["index"].span)
+    rep.floor("R7b", "children of loop statements compared", n, 5)
 
 
 def r8(db, rep):
@@ -803,6 +945,22 @@ def r9(db, rep):
                         base_ty = g.locals[d[2]["p"][0]]
                         if "ContainsVisitor" in base_ty or "ContainsSymbol" in base_ty:
                             syms |= {by_dv.get(v, v) for v in t["vals"]}
+        # helpers of the visitor (inherent methods of ContainsVisitor called from the override) decide too
+        for _, t in f.calls():
+            h = db.fns.get(callee(t) or "")
+            if h is not None and "ContainsVisitor" in h.id and not h.name.startswith("visit_") and h.id != f.id:
+                for b in h.reachable():
+                    for st in h.blocks[b]["s"]:
+                        r = st["r"]
+                        if r.get("k") == "agg" and r.get("adt", "").endswith("operations::ContainsSymbol"):
+                            syms.add(r.get("variant"))
+                    t2 = h.blocks[b]["t"]
+                    if t2["t"] == "switch":
+                        l = op_local(t2["o"])
+                        d = h.single_def(l) if l is not None else None
+                        if d and d[1] != "t" and d[2].get("k") == "discr" and \
+                                ("ContainsVisitor" in h.locals[d[2]["p"][0]] or "ContainsSymbol" in h.locals[d[2]["p"][0]]):
+                            syms |= {by_dv.get(v, v) for v in t2["vals"]}
         groups.setdefault(_sibling_key(f.name), []).append((f, syms))
     n = 0
     for key, members in sorted(groups.items()):
@@ -816,6 +974,34 @@ def r9(db, rep):
                    f"{sorted(x for x in ref if x)}: Contains gives different answers for the two forms of the same construct "
                    f"(a `super` inside an async arrow function is then invisible: no early SyntaxError, and the enclosing "
                    f"method gets no function environment — EnginePanic `must be in a function environment`)", loc=f.span)
+    # ECMA-262 Contains for arrow functions: only the symbols an arrow inherits lexically are searched for inside it
+    # (new.target, super property / call, super, this); boa adds its own DirectEval flag. `await` / `yield` belong to the
+    # arrow's own body and must stay invisible to the enclosing function or module ([[HasTLA]]).
+    arrow_ok = {"NewTarget", "SuperProperty", "SuperCall", "Super", "This", "DirectEval"}
+    for f, syms in groups.get("arrow_function", []):
+        extra = {x for x in syms if x} - arrow_ok
+        rep.ob("R9", f"arrow_function:{f.name}:only-lexically-inherited-symbols", not extra,
+               f"ContainsVisitor::{f.name} also looks into the arrow function for {sorted(extra)}: an `await` inside an async "
+               f"arrow's body then counts as top-level await of the enclosing module ([[HasTLA]]), which reorders module "
+               f"evaluation and turns synchronous failures into asynchronous ones", loc=f.span)
+    # constructs that await without an Await node (`for await`): their `await` flag must be consulted
+    methods = [db.fns[x] for x in imp[0]["items"] if x in db.fns]
+    na = 0
+    for k, a in db.adts.items():
+        if not k.startswith("boa_ast::"):
+            continue
+        fl = [x["n"] for v in a["variants"] for x in v["fields"] if x["n"] in ("await", "r#await") and x["ty"] == "bool"]
+        if not fl:
+            continue
+        na += 1
+        short_T = k.split("::")[-1]
+        hs = [f for f in methods if f.rec["argc"] >= 2 and f.locals[2].replace("&'ast ", "").replace("&", "").strip() == k]
+        ok = any(_reads(f, short_T, "await") or _reads(f, short_T, "r#await") for f in hs)
+        rep.ob("R9", f"{short_T}:await-flag-consulted", ok,
+               f"ContainsVisitor has no override for {short_T} that reads its `await` flag: contains(x, AwaitExpression) misses "
+               f"`for await (.. of ..)`, so a module whose only await is a top-level for-await is not [[HasTLA]] — it is run "
+               f"synchronously and its importers fail (`ReferenceError: v is not defined`)", loc=a["span"])
+    rep.floor("R9", "AST nodes with an await flag", na, 1)
     rep.floor("R9", "sibling groups in ContainsVisitor", n, 4)
 
 
@@ -876,7 +1062,9 @@ def run(db, rep, tier):
     r4(db, rep)
     r5(db, rep)
     r6(db, rep)
+    r6b(db, rep)
     r7(db, rep)
+    r7b(db, rep)
     r8(db, rep)
     r9(db, rep)
     r10(db, rep)
